@@ -757,11 +757,22 @@ impl<'s> Gen<'s> {
             Kind::ModSet { count_at, max } => {
                 let fit = (ctx.mode_limit.saturating_sub(off)) / 4;
                 let top = (*max).min(fit);
-                let n = match ctx.pick(&path, 4) {
+                // ids a peer may legally send but that look like something else: zero, a built-in car's code, an
+                // unknown built-in-style code (the field is an opaque 32-bit skin id)
+                const SPECIAL: [u32; 4] = [0, 0x0047_5258, 0x0043_4241, 0x004d_4246];
+                let mut special_from: Option<usize> = None;
+                let n = match ctx.pick(&path, 5) {
                     Pick::Zero => 0,
+                    Pick::Nth(4) => {
+                        special_from = Some(0);
+                        4.min(top)
+                    },
                     Pick::Nth(k) => [1, 2, top - 1, top][k],
                     Pick::Random => {
                         let t = ctx.t();
+                        if t.below(4) == 0 {
+                            special_from = Some(t.below(3));
+                        }
                         match t.below(4) {
                             0 => 0,
                             1 => top,
@@ -771,12 +782,11 @@ impl<'s> Gen<'s> {
                 };
                 put(img, *count_at, &[n as u8]);
                 let mut names = vec![];
-                let mut zero = [0u8; 64];
-                zero[0] = 1;
                 for i in 0..n {
-                    let id = match ctx.tape.as_mut() {
-                        Some(t) => mod_id(t, i),
-                        None => 0x0100_0000 | ((i as u32 + 1) << 8) | i as u32,
+                    let id = match (special_from, ctx.tape.as_mut()) {
+                        (Some(from), _) if i >= from && i - from < SPECIAL.len() => SPECIAL[i - from],
+                        (_, Some(t)) => mod_id(t, i),
+                        (_, None) => 0x0100_0000 | ((i as u32 + 1) << 8) | i as u32,
                     };
                     put(img, off + 4 * i, &id.to_le_bytes());
                     names.push(format!("MOD({:06X})", id));
